@@ -248,7 +248,7 @@ func (m *c09Model) observe(pfx string, obs map[string]string, queryVals []interf
 				var rc []string
 				seen := map[float64]bool{}
 				for _, n := range nl {
-					if n > b[0] && n < b[1] && !seen[n] {
+					if n > b[0] && n < b[1] && !seen[n] { // a term equal to a bound is not judged
 						seen[n] = true
 						rc = append(rc, fmt.Sprintf("%s=%d", fnum(n), len(nums[n])))
 					}
@@ -272,8 +272,10 @@ func (m *c09Model) observe(pfx string, obs map[string]string, queryVals []interf
 
 var c09QueryVals = []interface{}{"s", "t", "", 1.0, 1.5, -2.5, 0.0, -1e10, 1e10, 1e-10, -1e-10}
 
-// bounds lie strictly between the term values, so inclusivity is never at issue
-var c09Bounds = [][2]float64{{-1e11, 1e11}, {-1e11, -1}, {-3, -1e-5}, {-1e-5, 1e-5}, {-1e-5, 0.5}, {0.5, 1.2}, {0.5, 2}, {1.2, 1e9}, {1e-11, 1e11}, {-1e11, -1e-11}, {2, 1e11}, {-3, 2}}
+// a term that equals a bound is dropped from both sides of the comparison:
+// whether a bound is included is not specified
+var c09Bounds = [][2]float64{{-1e11, 1e11}, {-1e11, -1}, {-3, -1e-5}, {-1e-5, 1e-5}, {-1e-5, 0.5}, {0.5, 1.2}, {0.5, 2}, {1.2, 1e9}, {1e-11, 1e11}, {-1e11, -1e-11}, {2, 1e11}, {-3, 2},
+	{-5, 0}, {0, 5}, {0, 0}, {-2.5, 1.5}, {1, 1.5}, {-1e10, 0}, {0, 1e10}, {-2.5, -1e-10}, {1.5, 1.5}, {5, -5}}
 
 type c09Env struct {
 	kv kvi.KVInterface
@@ -329,6 +331,9 @@ func observeIndex(idx *kvindex.KVIndex, pfx string, docPfx string, haveNums map[
 				go func() {
 					defer close(done)
 					for tc := range idx.FieldTermNumberRange(pf, b[0], b[1]) {
+						if tc.Number == b[0] || tc.Number == b[1] {
+							continue // whether a bound itself is included is not specified
+						}
 						rc = append(rc, fmt.Sprintf("%s=%d", fnum(tc.Number), tc.Count))
 					}
 				}()
@@ -555,7 +560,7 @@ func init() {
 		ID:   "C09",
 		Rule: "sequences over AddField/RemoveField (3 fields incl. a nested path), AddDoc (3 ids x 10 bodies, re-adding an id = replacement) and RemoveDoc, from three base states: exhaustive to depth 2 (quick) / 3 (thorough) plus 500 / 20000 random sequences of length 8-20; after EVERY step every public query (GetTermMatch for 11 values, FieldTerms, FieldTermCounts, FieldStringTermCounts, FieldNumbers, min, max, 12 numeric ranges) on every field is compared with a brute-force scan of the model's live documents; plus large cases with 90 / 250 distinct numeric terms. Terms cover strings incl. \"\" and numbers -1e10..1e10 incl. negatives, zero, fractions. Non-trivial = at least one live document under a registered field.",
 		Assumptions: []string{
-			"range bounds lie strictly between term values (boundary inclusivity is unspecified)",
+			"range bounds include 0 and term values; a term equal to a bound is not judged (boundary inclusivity is unspecified)",
 			"min/max/range are compared only when at least one numeric live term exists",
 			"-0 is not generated",
 			"one Badger store per worker, a fresh KVIndex object and unique field/document prefixes per sequence",
